@@ -44,12 +44,18 @@ type Dyn struct {
 	Host     string `json:"host,omitempty"`
 	AltLevel string `json:"alt_level,omitempty"`
 	AltIdx   int    `json:"alt_idx,omitempty"`
+	// Renamed: the generated variant's levels carry new names (renamedPrefix) and its default
+	// desired level is one of them
+	Renamed bool `json:"renamed,omitempty"`
 }
 
 func (s Dyn) label() string {
 	l := s.Platform
 	if s.Source == "genvariant" {
 		l += "/generated"
+		if s.Renamed {
+			l += "-renamed"
+		}
 	} else if s.Variant != "" {
 		l += "/" + s.Variant
 	}
@@ -134,7 +140,16 @@ func (s Dyn) source() (b []byte, arg interface{}, prompts map[string]string, res
 			prompts = vp
 		}
 		if s.Source == "genvariant" {
-			gb, err := genVariantDef(ab, allButDriverType, canon[s.Platform].Default)
+			style := ""
+			if s.Renamed {
+				style = "renamed"
+				rp := map[string]string{}
+				for k, p := range prompts {
+					rp[renamedPrefix+k] = p
+				}
+				prompts = rp
+			}
+			gb, err := genVariantDef(ab, allButDriverType, style)
 			if err != nil {
 				v := mon.Result{Verdict: mon.Inconclusive, Detail: "harness: cannot generate variant: " + err.Error()}
 				return nil, nil, nil, &v
